@@ -92,6 +92,16 @@ CHECKS = {
             "Generated-input search over models and rewrite compositions where no stored oracle exists; the relation between two inference runs is the oracle.",
             "Trusted: each rewrite preserves the likelihood by construction (props/c15.py); fits at tight tolerance, best of {scipy, minuit} per side to remove optimiser path dependence on multi-modal likelihoods; configuration comparisons that end in different local minima of the same function are counted, not reported.",
             "DESIGN.md#c15"),
+    "C11": ("exploration",
+            "model-based history generation: Hypothesis-generated operation lists (switch backend/precision/optimizer, create model/interpolator/viewers, delete + gc, evaluate, fit) with an invariant after every step: the old object equals a freshly constructed one under the current backend, tensors are of the current backend's type, get_backend() reflects the last switch, no dead callback references, no exception",
+            "Generated histories (shrunk as one value) over 4 backends x 2 precisions x 2 optimizers interleaved with object creation, deletion and evaluation; oracle = differential against a fresh object at every step.",
+            "Trusted: a freshly constructed object is correct under the current backend (C01/C02 check that); tensorflow and jax histories run in dedicated shards; default=True switches are out of scope.",
+            "DESIGN.md#c11"),
+    "C18": ("exploration",
+            "model-based history generation: Hypothesis-generated exportable workspaces and export/import operation lists over two directories; round-trip oracle (structure, modifier data, lumi settings, constant flags) and likelihood equality at a generated point for every measurement; the import must reflect the latest export into the directory",
+            "Generated round trips with lumi != 1, custom normfactor settings, fixed parameters, several measurements, integer and negative yields, and re-exports into used directories (stale-cache histories).",
+            "Trusted: vlib/refmodel.py for the evaluation point only (both likelihoods are evaluated by pyhf); exportable domain = what HistFactory XML can express (stated in the check); the harness never clears the file cache.",
+            "DESIGN.md#c18"),
 }
 
 NOT_YET = "check not built yet in this session (work in progress; the design in DESIGN.md section 5 applies)"
